@@ -2,7 +2,7 @@
 """Correspondence cases for coq/theories/Model/InPlace.v (PyCdlib.modify_file_in_place as a list of writes).
 
 A case is (image configuration, target path, `length` argument, number of bytes the fp really holds, how the image is
-opened).  `render(case)` builds the image with the real pycdlib (/repo, time.time() pinned) into a file under
+opened, lengths of earlier modify_file_in_place calls made on the same target in the same session).  `render(case)` builds the image with the real pycdlib (/repo, time.time() pinned) into a file under
 /var/tmp/inplace/cache (once per configuration), copies it to a scratch file, opens that 'r+b' (or 'rb', or as a
 BytesIO), wraps the file object so that every write(bytes) issued through it is LOGGED with the position it lands
 on, calls open_fp(), extracts the model's [state] from the library's OBJECT GRAPH before the call (the record found
@@ -332,12 +332,6 @@ def coq_fentry(e):
         zl(e.extended_attrs), '; '.join(coq_ad(a) for a in e.alloc_descs))
 
 
-def coq_vd(vd):
-    rec = vd.record()
-    return '(mk_vdesc %d %s %d %s %s)' % (vd.extent_location(), rle(rec[:80]), vd.space_size, rle(rec[88:830]),
-                                          rle(rec[847:]))
-
-
 def coq_vd_expanded(vd):
     rec = vd.record()
     return '(mk_vdesc %d (expand %s) %d (expand %s) (expand %s))' % (
@@ -392,7 +386,10 @@ def run(case):
     path = target_path(case)
     for k, ln in enumerate(case.get('pre', ())):
         _pin(CLOCK1 + 3600 * (k + 1))
-        iso.modify_file_in_place(io.BytesIO(content(ln, 150 + k)), ln, path)
+        try:
+            iso.modify_file_in_place(io.BytesIO(content(ln, 150 + k)), ln, path)
+        except pycdlib.pycdlibexception.PyCdlibInvalidInput:
+            pass    # a refused earlier call (another sector count for this target) changes nothing
     if case.get('pre'):
         raw.flush()
         before = raw.getvalue() if case['mode'] == 'bytesio' else open(scratch, 'rb').read()
